@@ -54,10 +54,13 @@ Definition eff_mid (mid auto : Z) : Z := if mid =? 0 then auto else mid.
 
 Definition decode_gen (i o : sx) : option gen :=
   match i, o with
-  | SList [SInt mid; SInt t0; SList clk], SList [SInt auto; SList obs] =>
-      match expand_clock clk, expand_obs obs with
-      | Some c, Some ob => Some (mkGen (eff_mid mid auto) t0 c ob)
-      | _, _ => None
+  | SList (SInt mid :: SInt t0 :: SList clk :: more), SList [SInt auto; SList obs] =>
+      (* an optional 4th component n > 1 says that n goroutines shared the generator: the
+         observed outcomes are then in the order in which the calls consumed the readings,
+         and the model's answer for the script must be the same whoever made the calls *)
+      match more, expand_clock clk, expand_obs obs with
+      | ([] | [SInt _]), Some c, Some ob => Some (mkGen (eff_mid mid auto) t0 c ob)
+      | _, _, _ => None
       end
   | _, _ => None
   end.
